@@ -853,3 +853,229 @@ Proof.
   intros s ops. split; [reflexivity|]. intros s' E.
   exact (proj2 (proj2 (proj2 (C01_error_no_effect s))) ops s' E).
 Qed.
+
+(* ------------------------------------------------------------------------------------ *)
+(* Part J: facts about every reachable state, across reopen and crash/recover (for scans)  *)
+(* ------------------------------------------------------------------------------------ *)
+
+Record RInv (s : st) : Prop := mkRInv {
+  r_imm : Forall (fun m => mt_imm m = true) (imms s);
+  r_seq : seq_inv (active s);
+  r_next : wal_next s <= MaxSeq;
+  r_asc : Forall key_asc (tabs_of s)
+}.
+
+Lemma one_le_MaxSeq : 1 <= MaxSeq.
+Proof. vm_compute. discriminate. Qed.
+
+Lemma RInv_init : forall c, RInv (init c).
+Proof.
+  intros c. constructor; unfold init, tabs_of; proj; cbn [map].
+  - constructor.
+  - constructor.
+  - exact one_le_MaxSeq.
+  - constructor.
+Qed.
+
+Lemma RInv_write_state : forall s h ops,
+  Inv s h -> RInv s -> (MaxSeq <=? wal_next s) = false -> RInv (write_state s ops).
+Proof.
+  intros s h ops I R M.
+  pose proof (add_all_spec (wal_next s) ops
+    (upd_wal s (wal_next s + 1)
+       (log_append (wal_files s) (map (bop_entry (wal_next s)) ops)))) as A.
+  pose proof (add_all_seq_inv (wal_next s) ops
+    (upd_wal s (wal_next s + 1)
+       (log_append (wal_files s) (map (bop_entry (wal_next s)) ops)))) as Q.
+  cbn zeta in A. fold (write_state s ops) in A, Q.
+  set (s2 := write_state s ops) in *. clearbody s2. unfold upd_wal in A, Q.
+  revert A Q. proj. intros (A1 & A2 & A3 & A4 & A5 & A6 & A7 & A8 & A9 & A10 & A11) Q.
+  apply N.leb_gt in M. constructor.
+  - rewrite A4. exact (r_imm s R).
+  - apply Q; [|exact (r_seq s R)]. pose proof MaxSeq_small. lia.
+  - rewrite A2. lia.
+  - unfold tabs_of. rewrite A6. exact (r_asc s R).
+Qed.
+
+Lemma RInv_maybe_schedule : forall s, RInv s -> RInv (maybe_schedule s).
+Proof.
+  intros s R. unfold maybe_schedule. destruct (flush_pending s); [|exact R].
+  constructor; unfold schedule_flush, tabs_of; proj.
+  - apply Forall_app. split; [exact (r_imm s R)|]. repeat constructor.
+  - constructor.
+  - exact (r_next s R).
+  - exact (r_asc s R).
+Qed.
+
+Lemma RInv_apply_batch : forall s h ops, Inv s h -> RInv s -> RInv (fst (apply_batch s ops)).
+Proof.
+  intros s h ops I R. destruct ops as [|o r]; [exact R|].
+  destruct (MaxSeq <=? wal_next s) eqn:M.
+  - rewrite apply_batch_overflow by (assumption || discriminate). exact R.
+  - rewrite apply_batch_ok by (assumption || discriminate). cbn [fst].
+    apply RInv_maybe_schedule. eapply RInv_write_state; eassumption.
+Qed.
+
+Lemma RInv_iter_all : forall s m, RInv s -> In m (active s :: imms s) ->
+  mt_iter_entries m = mt_entries m.
+Proof.
+  intros s m R [<-|Hm]; [apply iter_all; exact (r_seq s R)|].
+  apply iter_imm. pose proof (r_imm s R) as F. rewrite Forall_forall in F. exact (F m Hm).
+Qed.
+
+Lemma RInv_flush : forall s h, Inv s h -> RInv s -> RInv (flush s).
+Proof.
+  intros s h I R. destruct (flush_spec s) as (_ & G2 & _ & _ & G5 & G6 & _ & _ & G9).
+  constructor.
+  - rewrite G6. exact (r_imm s R).
+  - rewrite G5. exact (r_seq s R).
+  - rewrite G2. exact (r_next s R).
+  - unfold tabs_of. rewrite G9. apply Forall_app. split; [exact (r_asc s R)|].
+    rewrite Forall_forall. intros l Hl. apply in_flat_map in Hl. destruct Hl as (m & Hm & Hlm).
+    unfold opt_table in Hlm. destruct (nonnil (flushed_entries m)); [|contradiction].
+    destruct Hlm as [<-|[]].
+    assert (Hm' : In m (active s :: imms s)).
+    { apply flush_tabs_incl in Hm. destruct Hm as [<-|Hm]; [left; reflexivity|].
+      right. apply (inv_pending s h I). exact Hm. }
+    exact (proj1 (flushed_entries_spec m (layer_sorted s h m I Hm') (RInv_iter_all s m R Hm'))).
+Qed.
+
+Lemma wentry_mentry_seq : forall e m, wentry_mentry e = Some m -> mseq m = w_seq e.
+Proof.
+  intros e m. unfold wentry_mentry. destruct (w_op e =? OpPut); [intros E; injection E as <-; reflexivity|].
+  destruct (w_op e =? OpDel); [intros E; injection E as <-; reflexivity|discriminate].
+Qed.
+
+Lemma recover_tables_seq_inv : forall c es tables maxseq tbls m',
+  Forall (fun e => w_seq e < 2 ^ 64 - 1) es ->
+  seq_inv (hd mt_empty tables) ->
+  recover_tables c es tables maxseq = Some (tbls, m') ->
+  seq_inv (hd mt_empty tbls).
+Proof.
+  intros c es. induction es as [|e r IH]; intros tables maxseq tbls m' HF Hh HR.
+  - cbn [recover_tables] in HR. injection HR as <- <-. exact Hh.
+  - inversion HF as [|? ? He Hr]; subst. cbn [recover_tables] in HR.
+    destruct tables as [|cur older]; [discriminate|]. cbn [hd] in Hh.
+    assert (Hadd : forall x, seq_inv x ->
+              seq_inv (match wentry_mentry e with Some m => mt_add x m | None => x end)).
+    { intros x Hx. destruct (wentry_mentry e) as [m|] eqn:W; [|exact Hx].
+      apply mt_add_seq_inv; [|exact Hx]. unfold seq_ok. rewrite (wentry_mentry_seq e m W). exact He. }
+    destruct (c_memsize c <=? mt_size cur).
+    + destruct (c_maxmem c <=? N.of_nat (length (cur :: older))); [discriminate|].
+      eapply IH; [exact Hr| |exact HR]. cbn [hd]. apply Hadd. constructor.
+    + eapply IH; [exact Hr| |exact HR]. cbn [hd]. apply Hadd. exact Hh.
+Qed.
+
+(* recovery from a disk state holding the log of history h (all numbers below MaxSeq) *)
+Lemma RInv_reopen_ok : forall s h tbls maxseq,
+  recovered s = Some (tbls, maxseq) -> Inv (reopen s) h ->
+  concat (wal_files s) = wentries h -> Forall (fun n => n < MaxSeq) (map fst h) ->
+  Forall key_asc (tabs_of s) -> RInv (reopen s).
+Proof.
+  intros s h tbls maxseq R I Hw Hb Ha.
+  pose proof (inv_last _ _ I) as Hlast. pose proof (inv_next _ _ I) as Hnext.
+  revert I Hlast Hnext. rewrite (reopen_some s tbls maxseq R). intros I Hlast Hnext.
+  revert Hlast Hnext. unfold tabs_of; proj. intros Hlast Hnext. constructor; proj.
+  - rewrite Forall_forall. intros m Hm. apply in_map_iff in Hm. destruct Hm as (x & <- & _). reflexivity.
+  - unfold recovered in R. change (match tbls with a :: _ => a | [] => mt_empty end) with (hd mt_empty tbls).
+    eapply recover_tables_seq_inv; [| |exact R]; [|constructor].
+    rewrite concat_reopen_files, Hw, Forall_forall. intros e He. apply in_wentries in He.
+    destruct He as (p & o & Hp & _ & ->). rewrite wseq_bop_entry.
+    rewrite Forall_forall in Hb. specialize (Hb (fst p) (in_map fst _ _ Hp)).
+    pose proof MaxSeq_small. lia.
+  - rewrite Hnext, Hlast. destruct h as [|p0 h0]; [cbn [map last]; exact one_le_MaxSeq|].
+    destruct (@exists_last _ (map fst (p0 :: h0))) as (l' & x & E); [discriminate|].
+    rewrite E in *. rewrite last_last. apply Forall_app in Hb. destruct Hb as [_ Hx].
+    inversion Hx; subst. lia.
+  - apply tabs_sst_sort. exact Ha.
+Qed.
+
+Lemma RInv_reopen_fail : forall s, recovered s = None -> Forall key_asc (tabs_of s) -> RInv (reopen s).
+Proof.
+  intros s R Ha. rewrite (reopen_none s R). constructor; unfold tabs_of; proj.
+  - constructor.
+  - constructor.
+  - exact one_le_MaxSeq.
+  - apply tabs_sst_sort. exact Ha.
+Qed.
+
+Lemma hist_below_MaxSeq : forall s h, Inv s h -> RInv s -> Forall (fun n => n < MaxSeq) (map fst h).
+Proof.
+  intros s h I R. eapply Forall_impl; [|exact (inv_bound s h I)]. cbn beta. intros n Hn.
+  pose proof (r_next s R). lia.
+Qed.
+
+Lemma RInv_xstep : forall s h x, CInv s h -> RInv s -> RInv (xstep s x).
+Proof.
+  intros s h x C R. pose proof (proj1 C) as I. destruct x as [o|q]; cbn [xstep].
+  - destruct o as [k v|k|ops|ops|ops| | |k]; cbn [step]; try exact R.
+    + rewrite put_as_batch. eapply RInv_apply_batch; eassumption.
+    + rewrite del_as_batch. eapply RInv_apply_batch; eassumption.
+    + eapply RInv_apply_batch; eassumption.
+    + rewrite tx_commit_as_batch. eapply RInv_apply_batch; eassumption.
+    + eapply RInv_flush; eassumption.
+    + destruct (recovered s) as [[tbls maxseq]|] eqn:Rc.
+      * eapply (RInv_reopen_ok s h); [exact Rc|eapply Inv_reopen_ok; eassumption|exact (inv_wal s h I)| |exact (r_asc s R)].
+        exact (hist_below_MaxSeq s h I R).
+      * apply RInv_reopen_fail; [exact Rc|exact (r_asc s R)].
+  - unfold recover. destruct (recovered (crash s q)) as [[tbls maxseq]|] eqn:Rc.
+    + eapply (RInv_reopen_ok (crash s q)); [exact Rc| | | |].
+      * exact (proj1 (crash_recover_CInv s h q tbls maxseq C Rc)).
+      * apply crash_log. exact C.
+      * rewrite <- firstn_map. apply Forall_firstn_. exact (hist_below_MaxSeq s h I R).
+      * exact (r_asc s R).
+    + apply RInv_reopen_fail; [exact Rc|exact (r_asc s R)].
+Qed.
+
+Lemma RInv_xsteps : forall xs s h, CInv s h -> RInv s -> RInv (fold_left xstep xs s).
+Proof.
+  induction xs as [|x r IH]; intros s h C R; [exact R|].
+  cbn [fold_left]. apply (IH _ (xstep_hist s x h)); [apply CInv_xstep; exact C|].
+  eapply RInv_xstep; eassumption.
+Qed.
+
+(* states reachable with crash / recover cycles *)
+Definition xreachable (s : st) : Prop := exists c xs, s = fold_left xstep xs (init c).
+
+Lemma fold_xstep_XOp : forall ops s, fold_left xstep (map XOp ops) s = fold_left step ops s.
+Proof. induction ops as [|o r IH]; intros s; [reflexivity|]. cbn [map fold_left xstep]. apply IH. Qed.
+
+Lemma reachable_xreachable : forall s, reachable s -> xreachable s.
+Proof.
+  intros s (c & ops & ->). exists c, (map XOp ops). unfold run. symmetry. apply fold_xstep_XOp.
+Qed.
+
+Lemma xreachable_RInv : forall s, xreachable s -> RInv s.
+Proof.
+  intros s (c & xs & ->).
+  exact (RInv_xsteps xs (init c) [] (conj (Inv_init c) (InvF_init c)) (RInv_init c)).
+Qed.
+
+Lemma xreachable_CInv : forall s, xreachable s -> exists h, CInv s h.
+Proof.
+  intros s (c & xs & ->). eexists.
+  exact (CInv_xsteps xs (init c) [] (conj (Inv_init c) (InvF_init c))).
+Qed.
+
+Lemma RInv_run : forall c ops, RInv (run c ops).
+Proof. intros c ops. apply xreachable_RInv. apply reachable_xreachable. exists c, ops. reflexivity. Qed.
+
+(* every iterator of every memtable layer sees the whole table *)
+Theorem xreach_iter_all : forall s m,
+  xreachable s -> In m (mem_layers s) -> mt_iter_entries m = mt_entries m.
+Proof.
+  intros s m X Hm. apply (RInv_iter_all s m (xreachable_RInv s X)).
+  unfold mem_layers in Hm. destruct Hm as [<-|Hm]; [left; reflexivity|].
+  right. apply in_rev. exact Hm.
+Qed.
+
+Theorem reach_iter_all : forall s m,
+  reachable s -> In m (mem_layers s) -> mt_iter_entries m = mt_entries m.
+Proof. intros s m R. apply xreach_iter_all. apply reachable_xreachable. exact R. Qed.
+
+(* every SSTable is strictly ascending in key, also after reopen and crash/recover *)
+Theorem xreach_key_asc : forall s, xreachable s -> Forall key_asc (tabs_of s).
+Proof. intros s X. exact (r_asc s (xreachable_RInv s X)). Qed.
+
+Theorem reach_key_asc : forall s, reachable s -> Forall key_asc (tabs_of s).
+Proof. intros s R. apply xreach_key_asc. apply reachable_xreachable. exact R. Qed.
